@@ -11,7 +11,7 @@ const SPEC: Spec = Spec {
         "refint schoolbook multiplication is trusted; cross-checked against Python int on a transcript slice",
         "x86_64 / 64-bit digits only",
     ],
-    bounds_quick: "M1 Dense(S5,3)^2 + Dense(S8+,2)^2 + Dense(S16,2)^2 (16-letter half-digit alphabet); M2 all 1<=lx<=ly<=100 x 12x12 patterns + squares; M3 lx in {255..259,385,770} x 8 length relations x 12x12 patterns; M4 low/inner zero digits; M5 BigInt sign pairs and scalar forms on the pool, plus the *= / by-value forms on operands with spare buffer capacity for the whole product (also on every M6 length pair); M6 dense LCG digits for every 1<=lx<=ly<=72 x 2x2 members; M7 pool x every 2^k-1, 2^k, 2^k+1 (k<128) as scalar of every width and as big operand",
+    bounds_quick: "M1 Dense(S5,3)^2 + Dense(S8+,2)^2 + Dense(S16,2)^2 (16-letter half-digit alphabet); M2 all 1<=lx<=ly<=100 x 12x12 patterns + squares; M3 lx in {255..259,385,770} x 8 length relations x 12x12 patterns; M4 low/inner zero digits; M5 BigInt sign pairs and scalar forms on the pool, plus the *= / by-value forms on operands with spare buffer capacity for the whole product (also on every M6 length pair); M6 dense LCG digits for every 1<=lx<=ly<=72 x 2x2 members; M8 scalar matrix: 13 magnitudes x both signs x 30 edge scalars x 12 primitive types x 5 forms; M7 pool x every 2^k-1, 2^k, 2^k+1 (k<128) as scalar of every width and as big operand",
     bounds_thorough: "M1; M2 all 1<=lx<=ly<=400 x 12x12 patterns + squares; M3 lx in {255..262,300,383..386,511..514,767..772,1023..1026,1537..1539,2048,2305,2309..2311} x 8 length relations x 12x12 patterns; M4; M5; M6 up to 160 digits x 6x6 family members; M7",
     hang_secs: 120,
     probes: Some(probes),
@@ -356,6 +356,90 @@ fn body(ctx: &mut Ctx) {
                 }
             }
             ctx.sample(|| format!("a={} x every 2^k-1, 2^k, 2^k+1 (k<128) as u32/u64/u128/i128 scalar and as big operand", an.to_hex()));
+        }
+    }
+    // M8: the full scalar matrix: every primitive type x its extreme values x both operand orders x * and *= on BigInt of
+    // both signs and, for the unsigned types, on BigUint
+    if ctx.space("M8") {
+        let mags: Vec<Vec<u64>> = vec![vec![], vec![1], vec![2], vec![0xffff_ffff], vec![alpha::H - 1], vec![alpha::H], vec![alpha::M], vec![0, 1], vec![alpha::M, alpha::H - 1], vec![alpha::M, alpha::M], vec![1, 0, 1], alpha::lcg_digits(5, 9), alpha::lcg_digits(40, 9)];
+        let edge: Vec<i128> = vec![0, 1, 2, -1, -2, 127, 128, -128, 255, 256, 32767, -32768, 65535, 65536, (1 << 31) - 1, 1 << 31, -(1 << 31), (1 << 32) - 1, 1 << 32, (1 << 63) - 1, 1 << 63, -(1 << 63), -(1 << 63) - 1, (1 << 64) - 1, 1 << 64, (1 << 64) + 1, -(1 << 64), i128::MAX, i128::MIN, i128::MIN + 1];
+        macro_rules! scalar_int {
+            ($T:ty, $tn:expr, $x:expr, $xi:expr, $t:expr) => {{
+                if let Ok(t) = <$T>::try_from($t) {
+                    let want = $xi.mul(&Int::from_i128($t));
+                    let args = || vec![format!("x={}", $xi.to_hex()), format!("s={} ({})", $t, $tn)];
+                    let r = call(ctx, || $x * t);
+                    expect_int(ctx, concat!("BigInt &x*", $tn), &args, r, &want);
+                    let r = call(ctx, || t * $x);
+                    expect_int(ctx, concat!("BigInt ", $tn, "*&x"), &args, r, &want);
+                    let r = call(ctx, || $x.clone() * t);
+                    expect_int(ctx, concat!("BigInt x*", $tn), &args, r, &want);
+                    let r = call(ctx, || t * $x.clone());
+                    expect_int(ctx, concat!("BigInt ", $tn, "*x"), &args, r, &want);
+                    let r = call(ctx, || {
+                        let mut y = $x.clone();
+                        y *= t;
+                        y
+                    });
+                    expect_int(ctx, concat!("BigInt x*=", $tn), &args, r, &want);
+                }
+            }};
+        }
+        macro_rules! scalar_uint {
+            ($T:ty, $tn:expr, $u:expr, $un:expr, $t:expr) => {{
+                if let Ok(t) = <$T>::try_from($t) {
+                    let want = $un.mul(&Nat::from_u128($t as u128));
+                    let args = || vec![format!("a={}", $un.to_hex()), format!("s={} ({})", $t, $tn)];
+                    let r = call(ctx, || $u * t);
+                    expect_nat(ctx, concat!("BigUint &a*", $tn), &args, r, &want);
+                    let r = call(ctx, || t * $u);
+                    expect_nat(ctx, concat!("BigUint ", $tn, "*&a"), &args, r, &want);
+                    let r = call(ctx, || t * $u.clone());
+                    expect_nat(ctx, concat!("BigUint ", $tn, "*a"), &args, r, &want);
+                    let r = call(ctx, || {
+                        let mut y = $u.clone();
+                        y *= t;
+                        y
+                    });
+                    expect_nat(ctx, concat!("BigUint a*=", $tn), &args, r, &want);
+                }
+            }};
+        }
+        for (i, d) in mags.iter().enumerate() {
+            if !ctx.mine(i as u64) {
+                continue;
+            }
+            let un = Nat::from_digits(d);
+            let u = bu(d);
+            for neg in [false, true] {
+                let xi = Int::new(neg, un.clone());
+                let x = bi_int(&xi);
+                for &t in &edge {
+                    ctx.case();
+                    ctx.nontrivial(1);
+                    scalar_int!(i8, "i8", &x, &xi, t);
+                    scalar_int!(i16, "i16", &x, &xi, t);
+                    scalar_int!(i32, "i32", &x, &xi, t);
+                    scalar_int!(i64, "i64", &x, &xi, t);
+                    scalar_int!(i128, "i128", &x, &xi, t);
+                    scalar_int!(isize, "isize", &x, &xi, t);
+                    scalar_int!(u8, "u8", &x, &xi, t);
+                    scalar_int!(u16, "u16", &x, &xi, t);
+                    scalar_int!(u32, "u32", &x, &xi, t);
+                    scalar_int!(u64, "u64", &x, &xi, t);
+                    scalar_int!(u128, "u128", &x, &xi, t);
+                    scalar_int!(usize, "usize", &x, &xi, t);
+                    if !neg && t >= 0 {
+                        scalar_uint!(u8, "u8", &u, &un, t);
+                        scalar_uint!(u16, "u16", &u, &un, t);
+                        scalar_uint!(u32, "u32", &u, &un, t);
+                        scalar_uint!(u64, "u64", &u, &un, t);
+                        scalar_uint!(u128, "u128", &u, &un, t);
+                        scalar_uint!(usize, "usize", &u, &un, t);
+                    }
+                }
+            }
+            ctx.sample(|| format!("|x|={} digits (both signs) x {} edge scalars x 12 primitive types x 5 multiplication forms", un.len(), edge.len()));
         }
     }
     // M4: low zero digits and internal zero digits
